@@ -28,7 +28,7 @@ from pathlib import Path
 HERE = Path(__file__).resolve().parent
 TEMPLATES = HERE / "mito_templates.json"
 
-MODEL_FUNCS = ["metabolize", "_detect_pathway", "_glycolysis", "_krebs_cycle",
+MODEL_FUNCS = ["metabolize", "digest_glucose", "_detect_pathway", "_glycolysis", "_krebs_cycle",
                "_oxidative_phosphorylation", "_require_capabilities", "_beta_oxidation",
                "execute_tool_call", "engulf_tool", "register_function"]
 NUCLEUS_FUNCS = ["transcribe_with_tools"]
@@ -170,8 +170,8 @@ def _walker(fn):
     return branches, fall, ok
 
 
-def _prints_guarded(fn) -> bool:
-    """Every print(...) call in fn lies inside the body of a try whose handlers
+def _prints_guarded(fn, callee="print") -> bool:
+    """Every <callee>(...) call in fn lies inside the body of a try whose handlers
     include a bare `except Exception`."""
     guarded = True
 
@@ -194,7 +194,7 @@ def _prints_guarded(fn) -> bool:
             for f in ("body", "orelse", "finalbody"):
                 nested += getattr(s, f, []) or []
             for n in ast.walk(s):
-                if isinstance(n, ast.Call) and isinstance(n.func, ast.Name) and n.func.id == "print":
+                if isinstance(n, ast.Call) and isinstance(n.func, ast.Name) and n.func.id == callee:
                     # is it inside one of the nested statement lists? handled below
                     if not any(n in list(ast.walk(x)) for x in nested):
                         if not inside:
@@ -277,6 +277,8 @@ def analyse(repo: Path) -> dict:
         shapes[name] = norm_dump(_strip_doc(f.body)) if f else "missing"
     m = _find_func(cls, "metabolize")
     out["print_guarded"] = bool(m) and _prints_guarded(m)
+    dg = _find_func(cls, "digest_glucose")
+    out["str_guarded"] = bool(dg) and _prints_guarded(dg, "str")
     sites = _execute_sites(tree, "mitochondria.py")
     nsrc = (repo / "operon_ai/organelles/nucleus.py").read_text()
     ntree = ast.parse(nsrc)
@@ -342,6 +344,7 @@ def emit(repo: Path) -> str:
         "Definition gen_function_matches_template : list (string * bool) := ["
         + "; ".join(f"({_cq(k)}, {'true' if ok else 'false'})" for k, ok in shape_ok) + "].",
         f"Definition gen_print_guarded : bool := {'true' if a['print_guarded'] else 'false'}.",
+        f"Definition gen_str_guarded : bool := {'true' if a['str_guarded'] else 'false'}.",
         "Definition gen_execute_sites : list (string * string * string * bool) := ["
         + "; ".join(f"({_cq(f)}, {_cq(fn)}, {_cq(kind)}, {'true' if g else 'false'})" for f, fn, kind, g in a["sites"]) + "].",
     ]
